@@ -13,6 +13,7 @@ import (
 	"math"
 	"net/netip"
 	"os"
+	"sync"
 	"time"
 
 	"github.com/google/gopacket/layers"
@@ -29,6 +30,9 @@ type sackDriver struct {
 	buffer []byte
 	parser *packets.FrameParser
 
+	// mu guards sendTimes: the sender goroutine stamps it in SendProbe while the
+	// receiver goroutine reads it when a reply comes in
+	mu        sync.Mutex
 	sendTimes []time.Time
 	localAddr netip.Addr
 	localPort uint16
@@ -69,10 +73,13 @@ func (s *sackDriver) SendProbe(ttl uint8) error {
 		return fmt.Errorf("sackDriver asked to send invalid TTL %d", ttl)
 	}
 	// store the send time for the RTT later when we receive the response
+	s.mu.Lock()
 	if !s.sendTimes[ttl].IsZero() {
+		s.mu.Unlock()
 		return fmt.Errorf("sackDriver asked to send probe for TTL %d but it was already sent", ttl)
 	}
 	s.sendTimes[ttl] = time.Now()
+	s.mu.Unlock()
 
 	gen := sackPacketGen{
 		ipPair: s.ExpectedIPPair().Flipped(),
@@ -155,10 +162,13 @@ func (s *sackDriver) getRTTFromRelSeq(relSeq uint32) (time.Duration, error) {
 	if relSeq < uint32(s.params.ParallelParams.MinTTL) || relSeq > uint32(s.params.ParallelParams.MaxTTL) {
 		return 0, fmt.Errorf("getRTTFromRelSeq: invalid relative sequence number %d", relSeq)
 	}
-	if s.sendTimes[relSeq].IsZero() {
+	s.mu.Lock()
+	sendTime := s.sendTimes[relSeq]
+	s.mu.Unlock()
+	if sendTime.IsZero() {
 		return 0, fmt.Errorf("getRTTFromRelSeq: no probe sent for relative sequence number %d", relSeq)
 	}
-	return time.Since(s.sendTimes[relSeq]), nil
+	return time.Since(sendTime), nil
 }
 
 var errPacketDidNotMatchTraceroute = &common.ReceiveProbeNoPktError{Err: fmt.Errorf("packet did not match the traceroute")}
